@@ -489,7 +489,7 @@ func run(prop string) int {
 		tier = "quick"
 	}
 	os.Setenv("RAFTMC_COORD", strconv.Itoa(os.Getpid()))
-	total := 100 * time.Second
+	total := 130 * time.Second
 	if tier == "thorough" {
 		total = 39 * time.Minute // 17 min for the boxes up to round 2 + 7 min for the apply-lag boxes B10 / B11 + 7 min of slices (6 min used) for the persist-lag boxes B12* + 7 min of slices (5.3 min used at load average 60) for the batch-proposal boxes B13*
 	}
